@@ -126,74 +126,185 @@ def rule_memmap(ctx, res):
               '', 'code area {} / image {}'.format(code_size, pos), gb.loc)
 
 
+def _flat_bytes(e):
+    """parts of a byte-string built by + or b''.join([...])"""
+    if isinstance(e, ast.BinOp) and isinstance(e.op, ast.Add):
+        return _flat_bytes(e.left) + _flat_bytes(e.right)
+    if isinstance(e, ast.Call) and isinstance(e.func, ast.Attribute) and \
+            e.func.attr == 'join' and const_str(e.func.value) == b'' and \
+            len(e.args) == 1 and isinstance(e.args[0], (ast.List, ast.Tuple)):
+        out = []
+        for x in e.args[0].elts:
+            out.extend(_flat_bytes(x))
+        return out
+    return [e]
+
+
+def _is_be16(e, lentext):
+    """e == bytes(<two ints>) spelling the big-endian 16-bit value of
+    len(code), checked by evaluating the extracted expression for several
+    lengths"""
+    from ..absint import arith
+    if not (isinstance(e, ast.Call) and isinstance(e.func, ast.Name) and
+            e.func.id == 'bytes' and len(e.args) == 1):
+        return False
+    a = e.args[0]
+    try:
+        for Lv in (0, 1, 255, 256, 0x1234, 0x3d00, 65535):
+            env = {lentext: Lv}
+            if isinstance(a, (ast.List, ast.Tuple)) and len(a.elts) == 2:
+                got = [arith.ev(x, env) for x in a.elts]
+            elif isinstance(a, ast.Call) and isinstance(a.func, ast.Name) \
+                    and a.func.id == 'divmod' and len(a.args) == 2:
+                x, y = arith.ev(a.args[0], env), arith.ev(a.args[1], env)
+                got = [x // y, x % y]
+            else:
+                return False
+            if got != [Lv >> 8, Lv & 255]:
+                return False
+    except AnalysisError:
+        return False
+    return True
+
+
 def rule_header(ctx, res):
+    from ..absint.symbody import SymBody
     model, ev = ctx.model, ctx.consts
+    u = ast.unparse
     gb = model.func(PNG + ':get_bytes_from_code')
-    parts = None
-    for n in walk_own(gb.node):
-        if isinstance(n, ast.Call) and isinstance(n.func, ast.Attribute) and \
-                n.func.attr == 'join' and n.args and \
-                isinstance(n.args[0], ast.List):
-            parts = n.args[0].elts
-    ok = False
-    hdr_len = None
-    detail = 'header join not found'
-    if parts is not None and len(parts) == 4:
-        magic = const_str(parts[0])
-        zeros = const_str(parts[2])
-        ln = None
-        if isinstance(parts[1], ast.Name):
-            for a in walk_own(gb.node):
-                if isinstance(a, ast.Assign) and \
-                        isinstance(a.targets[0], ast.Name) and \
-                        a.targets[0].id == parts[1].id:
-                    ln = ast.unparse(a.value).replace(' ', '')
-        ln_ok = ln == 'bytes([len(code)>>8,len(code)&255])'
-        comp = isinstance(parts[3], ast.Name)
-        ok = magic == ref.C_HEADER and zeros == b'\x00\x00' and ln_ok and comp
-        hdr_len = len(magic or b'') + 2 + len(zeros or b'')
-        detail = 'magic {!r}, length bytes {}, zeros {!r}'.format(
-            magic, ln, zeros)
-    res.check(ok and hdr_len == ref.C_HEADER_LEN, 'R-C04-header', gb.qual,
+    code = gb.params()[0]
+    sym = SymBody(ctx, gb, no_inline={'compress_code'})
+    paths = [p for p in sym.run(gb.node.body) if p.end == 'return']
+    COMP = 'compress.compress_code({})'.format(code)
+    comp_paths, raw_paths, unknown = [], [], []
+    for p in paths:
+        choice = None
+        for (t, v) in p.conds:
+            tt = u(t).replace(' ', '')
+            c = COMP.replace(' ', '')
+            L = 'len({})'.format(code)
+            if tt == 'len({})<{}'.format(c, L):
+                choice = v
+            elif tt == 'len({})>={}'.format(c, L):
+                choice = not v
+            elif tt == '{}>len({})'.format(L, c):
+                choice = v
+            elif tt == '{}<=len({})'.format(L, c):
+                choice = not v
+        (comp_paths if choice else raw_paths if choice is False
+         else unknown).append(p)
+    if unknown or not comp_paths or not raw_paths:
+        res.undecided('R-C04-header', gb.qual, 'compressed/raw choice',
+                      'paths of get_bytes_from_code not recognised ({} '
+                      'compressed, {} raw, {} other)'.format(
+                          len(comp_paths), len(raw_paths), len(unknown)),
+                      gb.loc)
+    else:
+        res.holds('R-C04-header', gb.qual,
+                  'compressed form used iff strictly smaller, raw otherwise',
+                  'len(compressed) < len(code) selects the compressed form',
+                  gb.loc)
+    # what is stored into the code area on each path: area[:len(X)] = X
+    def stored(p):
+        for e in p.events:
+            if e[0] == 'store' and isinstance(e[2], ast.Slice):
+                return e[3]
+        return None
+    ok = bool(comp_paths)
+    detail = ''
+    for p in comp_paths:
+        x = stored(p)
+        if x is None:
+            ok = False
+            detail = 'nothing stored into the code area'
+            continue
+        parts = _flat_bytes(x)
+        txt = [const_str(q) if isinstance(const_str(q), bytes) else
+               u(q).replace(' ', '') for q in parts]
+        L = 'len({})'.format(code)
+        len_forms = ('bytes([{0}>>8,{0}&255])'.format(L),
+                     'bytes(({0}>>8,{0}&255))'.format(L),
+                     'bytes([{0}//256,{0}%256])'.format(L),
+                     'bytes(({0}//256,{0}%256))'.format(L))
+        good = len(txt) == 4 and txt[0] == ref.C_HEADER and \
+            (txt[1] in len_forms or _is_be16(parts[1], L)) and \
+            txt[2] == b'\x00\x00' and \
+            txt[3] in (COMP.replace(' ', ''),
+                       'bytes({})'.format(COMP.replace(' ', '')))
+        if not good:
+            ok = False
+            detail = 'header written as {}'.format(txt[:4])
+    res.check(ok, 'R-C04-header', gb.qual,
               'writer header = :c:\\0, len hi, len lo, \\0\\0 (8 bytes)',
-              detail, 'header written as ' + detail, gb.loc)
-    # chosen iff strictly smaller; both branches define the bytes
-    chosen = False
-    for n in walk_own(gb.node):
-        if isinstance(n, ast.If) and ast.unparse(n.test).replace(' ', '') == \
-                'len(compressed_bytes)<len(code)':
-            a = any(isinstance(s, ast.Assign) and
-                    ast.unparse(s.targets[0]) == 'code_bytes'
-                    for s in n.body)
-            b = any(isinstance(s, ast.Assign) and
-                    ast.unparse(s.targets[0]) == 'code_bytes'
-                    for s in n.orelse)
-            chosen = a and b
-    res.check(chosen, 'R-C04-header', gb.qual,
-              'compressed form used iff strictly smaller, raw otherwise', '',
-              'the compressed/raw choice changed', gb.loc)
+              'magic, length of the code (big endian), two zero bytes, '
+              'compressed stream', detail or 'header not recognised', gb.loc)
+    for p in raw_paths:
+        x = stored(p)
+        good = x is not None and u(x).replace(' ', '') in (
+            'bytes({})'.format(code), code)
+        res.check(good, 'R-C04-header', gb.qual,
+                  'raw form stores the code itself', '',
+                  'raw path stores {}'.format(u(x) if x is not None else None),
+                  gb.loc)
+        break
+    # ---- reader -----------------------------------------------------------------
     gc = model.func(PNG + ':get_code_from_bytes')
-    t_ok = False
-    for n in walk_own(gc.node):
-        if isinstance(n, ast.Compare) and \
-                isinstance(n.ops[0], ast.NotEq) and \
-                const_str(n.comparators[0]) == ref.C_HEADER and \
-                'codedata[:4]' in ast.unparse(n.left):
-            t_ok = True
-    res.check(t_ok, 'R-C04-header', gc.qual,
-              'reader recognises compressed code by the same 4-byte magic',
-              '', 'reader tests another magic / length', gc.loc)
+    rs = SymBody(ctx, gc, no_inline={'decompress_code'})
+    rpaths = [p for p in rs.run(gc.node.body) if p.end == 'return']
+    n_dec = n_raw = 0
+    bad = []
+    for p in rpaths:
+        magic = ver0 = None
+        for (t, v) in p.conds:
+            tt = u(t).replace(' ', '')
+            if tt == 'version==0':
+                ver0 = v
+            elif tt == 'version!=0':
+                ver0 = not v
+            elif tt in ("bytes(codedata[:4])!=b':c:\\x00'",):
+                magic = not v
+            elif tt in ("bytes(codedata[:4])==b':c:\\x00'",):
+                magic = v
+        uses_dec = 'decompress_code(codedata)' in u(p.ret) if p.ret is not \
+            None else False
+        want_dec = (ver0 is False and magic is True)
+        if uses_dec:
+            n_dec += 1
+            if not want_dec:
+                bad.append('decompresses although version==0 is {} / magic '
+                           'matches is {}'.format(ver0, magic))
+        else:
+            n_raw += 1
+            if want_dec:
+                bad.append('takes the code raw although the magic matches')
+    if n_dec == 0 or n_raw == 0:
+        res.undecided('R-C04-header', gc.qual,
+                      'reader recognises compressed code by the same 4-byte '
+                      'magic', 'reader paths not recognised', gc.loc)
+    else:
+        res.check(not bad, 'R-C04-header', gc.qual,
+                  'reader recognises compressed code by the same 4-byte '
+                  'magic', '{} decompressing / {} raw paths'.format(
+                      n_dec, n_raw),
+                  'reader tests another magic / length: ' + '; '.join(
+                      sorted(set(bad))[:2]), gc.loc)
     dec = model.func('pico8.game.compress:decompress_code')
     src = ast.unparse(dec.node).replace(' ', '')
-    res.check('code_length=codedata[4]<<8|codedata[5]' in src and
+    res.check(('code_length=codedata[4]<<8|codedata[5]' in src or
+               'code_length=(codedata[4]<<8)|codedata[5]' in src) and
               'in_i=8' in src and "bytes(codedata[6:8])==b'\\x00\\x00'" in src,
               'R-C04-header', dec.qual,
               'decoder consumes the same 8-byte header', '',
               'decoder header handling changed', dec.loc)
     # raw branch of the reader: text up to the first zero byte, + newline
-    raw_ok = 'codedata.index(0)' in ast.unparse(gc.node) and \
-        "0x8000-0x4300" in ast.unparse(gc.node).replace(' ', '') or \
-        '32768-17152' in ast.unparse(gc.node).replace(' ', '')
+    gsrc = ast.unparse(gc.node).replace(' ', '')
+    try:
+        area = ev.module_const(PNG, 'CODE_AREA_SIZE')
+    except Exception:
+        area = None
+    raw_ok = ('codedata.index(0)' in gsrc or 'codedata.find(0)' in gsrc) \
+        and ('0x8000-0x4300' in gsrc or '32768-17152' in gsrc or
+             '15616' in gsrc or area == ref.CODE_AREA)
     res.check(raw_ok, 'R-C04-header', gc.qual,
               'raw code = bytes up to the first zero (or the whole area)',
               '', 'raw code extraction changed', gc.loc)
